@@ -576,10 +576,14 @@ def eng2(ctx: Ctx) -> None:
         elif isinstance(s_, (ast.Assign, ast.AnnAssign)) and isinstance(s_.value, ast.IfExp):
             test, body_v, else_v, tgt = s_.value.test, s_.value.body, s_.value.orelse, norm(s_.targets[0] if isinstance(s_, ast.Assign) else s_.target)
         if test is not None and "isinstance" in norm(test) and "Sequence" in norm(test):
+            from ..util import implies_sequence
             ivar = tgt
             neg = isinstance(test, ast.UnaryOp) and isinstance(test.op, ast.Not)
             core = test.operand if neg else test
             a, b = (else_v, body_v) if neg else (body_v, else_v)
+            # fast-path disjuncts that themselves imply Sequence-ness (type(r) is tuple) do not change the test
+            if isinstance(core, ast.BoolOp) and isinstance(core.op, ast.Or) and implies_sequence(core, rvar):
+                core = [x for x in core.values if norm(x).startswith(f"isinstance({rvar},") and "Sequence" in norm(x)][0]
             okseq = norm(core).startswith(f"isinstance({rvar},") and norm(a) == rvar and norm(b) == f"({rvar},)"
             seq_node = s_
     if ivar is None:
@@ -1450,8 +1454,14 @@ def ori_rules(ctx: Ctx) -> None:
     else:
         ctx.R.fail("ORI-1", mod, c1[0], "extract_outermost must run the same iterator on its own stackitem as extract does")
     par = mod.parent_of(c1[0])
+    bound_name = norm(par.targets[0]) if isinstance(par, ast.Assign) and len(par.targets) == 1 and isinstance(par.targets[0], ast.Name) else None
+    n_next = sum(1 for x_ in ast.walk(eo) if isinstance(x_, ast.Call) and norm(x_.func) == "next" and x_.args and bound_name is not None and norm(x_.args[0]) == bound_name)
+    via_name = bound_name is not None and n_next == 1 and any(isinstance(r_, ast.Return) and isinstance(r_.value, ast.Call) and norm(r_.value.func) == "next" and r_.value.args and norm(r_.value.args[0]) == bound_name
+                                              for r_ in ast.walk(eo))
     if isinstance(par, ast.Call) and norm(par.func) == "next" and isinstance(mod.parent_of(par), ast.Return):
         ctx.R.ok("ORI-1", "extract_outermost returns the first item of that iterator")
+    elif via_name:
+        ctx.R.ok("ORI-1", f"extract_outermost returns next({bound_name}) of that iterator")
     else:
         ctx.R.fail("ORI-1", mod, c1[0], "extract_outermost must return next(extract_iter(...)): the first frame of the same computation")
     for nm, e in (("errors", c1[0].args[1]), ("errors", c2[0].args[1])):
@@ -1588,7 +1598,18 @@ def ori_rules(ctx: Ctx) -> None:
             and norm(t[0].handlers[0].body[0]) == "return fallback":
         ctx.R.ok("ORI-3", "better_origin keeps the fallback when the candidate is not weak-referenceable")
     else:
-        ctx.R.fail("ORI-3", mod, bo, "better_origin must fall back when the candidate cannot be weakly referenced")
+        # positive evidence only: nothing in better_origin, or in the package functions it calls, looks at weak-referenceability
+        texts = [norm(bo)]
+        for c_ in calls_in(bo, True):
+            cal_ = ctx.P.resolve_call(mod, c_)
+            if cal_.kind == "pkg" and mod.has(cal_.name.split(".")[-1]):
+                texts.append(norm(mod.fn(cal_.name.split(".")[-1])))
+        wrong_handler = len(t) == 1 and "weakref.ref(candidate)" in norm(t[0].body[0]) and t[0].handlers and norm(t[0].handlers[0].type) == "TypeError" \
+            and isinstance(t[0].handlers[0].body[0], ast.Return) and norm(t[0].handlers[0].body[0]) != "return fallback"
+        if wrong_handler or not any("weakref" in t_ or "__weakref__" in t_ for t_ in texts):
+            ctx.R.fail("ORI-3", mod, bo, "better_origin must fall back when the candidate cannot be weakly referenced")
+        else:
+            ctx.R.undecided("ORI-3", "better_origin decides weak-referenceability in a way the rule does not follow")
 
 
 C05 = [cont1_2, cont3, cont4, cont5, def1, contw]
